@@ -12,7 +12,8 @@ from .common import DIMSETS, sym_mesh
 
 META = dict(
     bounds=dict(
-        quick=dict(ndim="1..3", n="each axis in {1,2,3,4,6} (mixes of even, odd, single-cell)", nvdim="1..3", labels="default / custom (incl. labels starting with f, t, _) / none",
+        quick=dict(also="axis names starting with k_; components mapped to axes outside the mesh; explicitly real-typed fields",
+                   ndim="1..3", n="each axis in {1,2,3,4,6} (mixes of even, odd, single-cell)", nvdim="1..3", labels="default / custom (incl. labels starting with f, t, _) / none",
                    transforms="fftn, ifftn, rfftn, irfftn with and without shape"),
         thorough=dict(ndim="1..4", n="each axis in {1,2,3,4,6}", nvdim="1..3", labels="as quick", transforms="as quick"),
     ),
